@@ -99,6 +99,10 @@ class ScriptedValidator(Validator):
             raise ValidationError(cursor_position=pos, message="scripted")
 
 
+class Abort(Exception):
+    """raised out of prompt_async() when the harness presses Control-C"""
+
+
 class GatedHistory(InMemoryHistory):
     """InMemoryHistory whose load() hands out one item per released permit."""
 
@@ -162,7 +166,7 @@ def vpending(app):
         if t.done():
             continue
         qn = getattr(t.get_coro(), "__qualname__", "")
-        if "load_history" not in qn:
+        if "async_validator" in qn:    # Buffer._create_auto_validate_coroutine.<locals>.async_validator
             return True
     return False
 
@@ -422,7 +426,7 @@ async def sess_trace(case):
         session = PromptSession(history=h, input=inp, output=DummyOutput(),
                                 validator=ScriptedValidator(list(case["val"])),
                                 enable_history_search=bool(case["ehs"]),
-                                validate_while_typing=bool(case["vwt"]))
+                                validate_while_typing=bool(case["vwt"]), interrupt_exception=Abort)
         b, app = session.default_buffer, session.app
 
         def sn():
@@ -449,7 +453,7 @@ async def sess_trace(case):
                     inp.send_text("\x03")
                     try:
                         await finish(task)
-                    except KeyboardInterrupt:
+                    except Abort:
                         pass
                 continue
             task = asyncio.ensure_future(session.prompt_async(default=p["default"]))
@@ -486,7 +490,7 @@ async def sess_trace(case):
                 inp.send_text("\x03")
                 try:
                     await finish(task)
-                except KeyboardInterrupt:
+                except Abort:
                     pass
                 events.append({"ev": "abort", "before": before, "after": sn()})
     return lines, events
@@ -699,8 +703,275 @@ def cases(tier, rng):
 
 
 # ------------------------------------------------------------------ oracle
+# The property restated over what the REAL objects show before / after every step
+# (written without reference to the Lean model).
+NAV_OPS = ("hb", "hf", "goto", "endhist", "aup", "adown", "left", "right", "home", "end", "cur", "ehs",
+           "validate", "avalidate")
+EDIT_OPS = ("ins", "delb", "text")
+KEY_NAV = ("up", "down", "c-p", "c-n", "prevhist", "nexthist", "beginhist", "endhist", "left", "right", "home", "end")
+KEY_EDIT = ("char", "backspace")
+STEP_NAV = ("hb", "hf", "aup", "adown", "up", "down", "c-p", "c-n", "prevhist", "nexthist")
+
+
+def clamp(p, n):
+    return min(max(0, p), n)
+
+
+def eff_prefix(before):
+    """the prefix an up/down step filters on when it starts in state `before`"""
+    if not before["ehs"]:
+        return None
+    if before["search"] is not None:
+        return before["search"]
+    return before["text"][:before["cur"]]
+
+
+class Viol:
+    def __init__(self):
+        self.v = []
+        self.seen = set()
+
+    def add(self, site, cond, msg):
+        sig = f"{site} | {cond}"
+        if sig not in self.seen:
+            self.seen.add(sig)
+            self.v.append({"signature": sig, "msg": msg[:1200]})
+
+
+def wf(V, site, st, desc):
+    if not (0 <= st["idx"] < len(st["work"])):
+        V.add(site, "working_index out of range", f"{desc}: idx={st['idx']} len(work)={len(st['work'])}")
+        return False
+    if not (0 <= st["cur"] <= len(st["text"])):
+        V.add(site, "cursor out of range", f"{desc}: cur={st['cur']} text={st['text']!r}")
+    return True
+
+
+def check_nav(V, site, name, before, after, desc):
+    """an up/down/page/goto/cursor step: stored history, working copies untouched"""
+    if after["storage"] != before["storage"] or after["hist"] != before["hist"]:
+        V.add(site, "navigation changed the stored history",
+              f"{desc}: {before['storage']!r}/{before['hist']!r} -> {after['storage']!r}/{after['hist']!r}")
+    if after["work"] != before["work"]:
+        V.add(site, "navigation changed a working copy", f"{desc}: {before['work']!r} -> {after['work']!r}")
+    if name in STEP_NAV and before["ehs"] and after["idx"] != before["idx"]:
+        p = eff_prefix(before)
+        if after["search"] != p or not after["text"].startswith(p):
+            V.add(site, "prefix search reached an entry without the prefix",
+                  f"{desc}: prefix={p!r} search={after['search']!r} reached={after['text']!r}")
+
+
+def check_edit(V, site, before, after, desc):
+    if after["storage"] != before["storage"] or after["hist"] != before["hist"]:
+        V.add(site, "edit changed the stored history", f"{desc}")
+    if after["idx"] != before["idx"] or len(after["work"]) != len(before["work"]):
+        V.add(site, "edit moved to another entry", f"{desc}: idx {before['idx']} -> {after['idx']}")
+    else:
+        for j, (x, y) in enumerate(zip(before["work"], after["work"])):
+            if j != before["idx"] and x != y:
+                V.add(site, "edit changed another working copy", f"{desc}: entry {j}: {x!r} -> {y!r}")
+
+
+def count_matches(work, idxs, p):
+    return sum(1 for j in idxs if p is None or work[j].startswith(p))
+
+
+def check_round_trip(V, site, first, k, s0, s2, desc):
+    """back k then forward k (or forward k then back k), k not exceeding the entries available
+    in that direction, from an entry the active filter admits: same entry and text again"""
+    if k < 1:
+        return
+    p = eff_prefix(s0)
+    if p is not None and not s0["text"].startswith(p):
+        return   # only reachable through go_to_history under a stale filter: see report
+    idxs = range(0, s0["idx"]) if first == "back" else range(s0["idx"] + 1, len(s0["work"]))
+    if k > count_matches(s0["work"], idxs, p):
+        return
+    if s2["idx"] != s0["idx"] or s2["text"] != s0["text"]:
+        V.add(site, "back k / forward k does not return",
+              f"{desc}: k={k} first={first} from idx={s0['idx']} text={s0['text']!r} prefix={p!r} "
+              f"work={s0['work']!r} -> idx={s2['idx']} text={s2['text']!r}")
+
+
+def check_accept(V, site, spec, before, after, out, keep, desc):
+    text = before["text"]
+    pos = verdict(spec, text)
+    if pos is not None:
+        # the validator does not pass: nothing may happen except the cursor move of a fresh verdict
+        if out != "rej":
+            V.add(site, "accepted although the validator fails", f"{desc}: text={text!r} out={out}")
+        if after["text"] != text or after["work"] != before["work"] or after["idx"] != before["idx"]:
+            V.add(site, "reject changed the text", f"{desc}: {before['work']!r} -> {after['work']!r}")
+        if after["storage"] != before["storage"] or after["hist"] != before["hist"]:
+            V.add(site, "reject appended to the history", f"{desc}: {before['storage']!r} -> {after['storage']!r}")
+        if before["vstate"] == "U" and after["cur"] != clamp(pos, len(text)):
+            V.add(site, "fresh verdict: cursor not at the clamped error position",
+                  f"{desc}: text={text!r} reported={pos} cursor={after['cur']}")
+        return
+    if out != "acc:" + enc_str(text):
+        V.add(site, "validator passes but the text was not accepted/returned", f"{desc}: text={text!r} out={out}")
+        return
+    newest = before["storage"][-1] if before["storage"] else None
+    want = before["storage"] + [text] if (text != "" and newest != text) else before["storage"]
+    if after["storage"] != want:
+        if text != "" and newest == text and not before["hloaded"]:
+            V.add("Buffer.append_to_history", "history not loaded yet: duplicate of the newest entry appended",
+                  f"{desc}: accepted {text!r}, stored history {before['storage']!r} -> {after['storage']!r}")
+        else:
+            V.add(site, "accept did not append exactly once",
+                  f"{desc}: accepted {text!r}, stored history {before['storage']!r} -> {after['storage']!r}, wanted {want!r}")
+    if keep is False and (after["work"] != [""] or after["idx"] != 0):
+        V.add(site, "buffer not reset after accept", f"{desc}: work={after['work']!r}")
+
+
+def check_clean(V, site, st, default, desc):
+    if st["work"] != st["hist"] + [default] or st["idx"] != len(st["hist"]):
+        V.add(site, "next prompt does not start from history + [default]",
+              f"{desc}: work={st['work']!r} idx={st['idx']} hist={st['hist']!r} default={default!r}")
+
+
+def buf_oracle(case, trace):
+    V = Viol()
+    spec = case["val"]
+    clean_default = None      # text given to the last reset, while nothing else has happened since
+    for i in range(1, len(trace)):
+        op, before, after, out = trace[i]
+        k = op[0]
+        site = "Buffer." + {"hb": "history_backward", "hf": "history_forward", "goto": "go_to_history",
+                            "aup": "auto_up", "adown": "auto_down", "endhist": "end-of-history",
+                            "accept": "validate_and_handle", "ins": "insert_text", "delb": "delete_before_cursor",
+                            "text": "text", "loadone": "load_history", "startload": "load_history",
+                            "reset": "reset", "append": "append_to_history"}.get(k, k)
+        desc = f"op {i - 1} {op}"
+        if not wf(V, site, after, desc):
+            break
+        if k in NAV_OPS:
+            check_nav(V, site, k, before, after, desc)
+            if k == "validate" and verdict(spec, before["text"]) is not None and out == "b1":
+                V.add(site, "validate() true although the validator fails", desc)
+        elif k in EDIT_OPS:
+            check_edit(V, site, before, after, desc)
+        elif k == "startload":
+            if after["storage"] != before["storage"] or after["work"] != before["work"] and not case.get("gated", True) is False:
+                pass
+            if after["storage"] != before["storage"]:
+                V.add(site, "loading changed the stored history", desc)
+            if after["hist"] != after["storage"]:
+                V.add(site, "loaded strings differ from the stored history", desc)
+            if after["text"] != before["text"]:
+                V.add(site, "loading changed the current entry", desc)
+        elif k == "loadone":
+            n = len(after["work"]) - len(before["work"])
+            if (after["storage"] != before["storage"] or after["hist"] != before["hist"] or n < 0
+                    or after["work"][n:] != before["work"] or after["idx"] != before["idx"] + n
+                    or after["text"] != before["text"] or after["cur"] != before["cur"]):
+                V.add(site, "loader item disturbed the entries or the position",
+                      f"{desc}: {before['work']!r}@{before['idx']} -> {after['work']!r}@{after['idx']}")
+        elif k == "accept":
+            check_accept(V, site, spec, before, after, out, bool(op[1]), desc)
+        elif k == "append":
+            text = before["text"]
+            newest = before["storage"][-1] if before["storage"] else None
+            want = before["storage"] + [text] if (text != "" and newest != text) else before["storage"]
+            if after["storage"] != want and not (text != "" and newest == text and not before["hloaded"]):
+                V.add(site, "append_to_history did not append exactly once", desc)
+            if after["work"] != before["work"]:
+                V.add(site, "append_to_history changed a working copy", desc)
+        elif k == "reset":
+            if after["storage"] != before["storage"] or after["hist"] != before["hist"]:
+                V.add(site, "reset changed the stored history", desc)
+        # round trips
+        if k in ("hb", "hf") and i + 1 < len(trace):
+            op2 = trace[i + 1][0]
+            if op2[0] == ("hf" if k == "hb" else "hb") and op2[1] == op[1]:
+                check_round_trip(V, "Buffer.history_backward/forward", "back" if k == "hb" else "fwd",
+                                 op[1], before, trace[i + 1][2], desc)
+        # clean start of the next prompt
+        if k == "reset":
+            clean_default = op[1]
+        elif k == "accept" and out.startswith("acc:") and not op[1]:
+            clean_default = ""
+        elif k not in ("startload", "loadone", "avalidate", "ehs"):
+            clean_default = None
+        if clean_default is not None and after["loading"] and not after["pending"] and k in ("startload", "loadone"):
+            check_clean(V, "Buffer.reset + load_history", after, clean_default, desc)
+    return V.v
+
+
+def sess_oracle(case, events):
+    V = Viol()
+    spec = case["val"]
+    last_storage = list(case["hist"])
+    for n, e in enumerate(events):
+        ev = e["ev"]
+        desc = f"event {n} {ev} {e.get('key', '')}"
+        after = e["after"]
+        if not wf(V, "PromptSession", after, desc):
+            break
+        if ev == "start":
+            if after["storage"] != last_storage:
+                V.add("PromptSession.prompt", "stored history changed between prompts",
+                      f"{desc}: {last_storage!r} -> {after['storage']!r}")
+            check_clean(V, "PromptSession.prompt", after, e["default"], desc)
+        elif ev == "key":
+            name = e["key"][0]
+            before = e["before"]
+            if name in KEY_NAV:
+                check_nav(V, "key " + name, name, before, after, desc)
+            elif name in KEY_EDIT:
+                check_edit(V, "key " + name, before, after, desc)
+            # round trip on consecutive prevhist k / nexthist k
+            if name in ("prevhist", "nexthist") and n + 1 < len(events) and events[n + 1]["ev"] == "key":
+                k2 = events[n + 1]["key"]
+                if k2[0] == ("nexthist" if name == "prevhist" else "prevhist") and k2[1] == e["key"][1]:
+                    check_round_trip(V, "previous-history/next-history", "back" if name == "prevhist" else "fwd",
+                                     e["key"][1], before, events[n + 1]["after"], desc)
+        elif ev in ("accept", "reject"):
+            before = e["before"]
+            if e["site"].startswith("prompt("):
+                # accept_default: `before` is the state before prompt(); the accepted text is the default
+                b2 = dict(before, text=e["text"], vstate="U", work=None, idx=None)
+                text = e["text"]
+                pos = verdict(spec, text)
+                if (pos is None) != (ev == "accept"):
+                    V.add(e["site"], "accept_default verdict differs from the validator", desc)
+                if ev == "accept":
+                    if e["result"] != text:
+                        V.add(e["site"], "returned value differs from the accepted text", desc)
+                    newest = before["storage"][-1] if before["storage"] else None
+                    want = before["storage"] + [text] if (text != "" and newest != text) else before["storage"]
+                    if after["storage"] != want:
+                        if text != "" and newest == text and not before["hloaded"]:
+                            V.add("Buffer.append_to_history",
+                                  "history not loaded yet: duplicate of the newest entry appended",
+                                  f"{desc}: prompt(default={text!r}, accept_default=True) with stored history "
+                                  f"{before['storage']!r} -> {after['storage']!r}")
+                        else:
+                            V.add(e["site"], "accept did not append exactly once",
+                                  f"{desc}: {before['storage']!r} -> {after['storage']!r}, wanted {want!r}")
+                else:
+                    if after["storage"] != before["storage"]:
+                        V.add(e["site"], "reject appended to the history", desc)
+                    if after["text"] != text:
+                        V.add(e["site"], "reject changed the text", desc)
+                    if after["cur"] != clamp(pos, len(text)):
+                        V.add(e["site"], "fresh verdict: cursor not at the clamped error position", desc)
+                del b2
+            else:
+                out = ("acc:" + enc_str(e["result"])) if ev == "accept" else "rej"
+                check_accept(V, e["site"], spec, before, after, out, None, desc)
+        elif ev == "abort":
+            if after["storage"] != e["before"]["storage"]:
+                V.add("PromptSession.prompt", "abort changed the stored history", desc)
+        last_storage = after["storage"]
+    return V.v
+
+
 def oracle(case):
-    return []
+    r = run_real(case)
+    if case["kind"] == "buf":
+        return buf_oracle(case, r)
+    return sess_oracle(case, r[1])
 
 
 def sample_view(case):
